@@ -35,7 +35,7 @@ def _key(step):
 
 
 def _replay(ctx, b, hists, nctr, label):
-    out = ctx.driver(b, ["c13-replay", str(nctr)], input_obj=hists, timeout=3000)
+    out = ctx.driver(b, ["c13-replay", str(nctr)], input_obj=hists, timeout=14400)
     summ = [o for o in out if o.get("summary")]
     if not summ or summ[0]["cases"] != len(hists):
         ctx.fail("driver replayed %s of %d behaviours (%s)" % (summ[0]["cases"] if summ else None, len(hists), label))
